@@ -160,16 +160,18 @@ Proof.
   - inversion H; subst. apply Rext_refl.
 Qed.
 
-Lemma gR_upd_index_subjects i subs :
-  guar Rext (upd_index i (fun x => mkIndex (Some subs) (i_table x) (i_name x) (i_unique x) (i_type x) (i_pk x) (i_note x) (i_comment x))).
+(* filling in the subjects of an index that is not attached yet *)
+Lemma upd_index_subjects_Rext i subs h h' r :
+  (exists ix, nth_error h i = Some (OIndex ix) /\ i_table ix = None) ->
+  upd_index i (fun x => mkIndex (Some subs) (i_table x) (i_name x) (i_unique x) (i_type x) (i_pk x) (i_note x) (i_comment x)) h = (h', r) ->
+  Rext h h'.
 Proof.
-  intros h h' r H. unfold upd_index, get_index, bindM, lookup in H. destruct (nth_error h i) as [ob|] eqn:E.
-  - destruct ob; inversion H; subst; try apply Rext_refl. eapply Rext_store_same; [exact E|reflexivity].
-  - inversion H; subst. apply Rext_refl.
+  intros (ix & E & Hd) H. unfold upd_index, get_index, bindM, lookup in H. rewrite E in H. inversion H; subst.
+  eapply Rext_store_same; [exact E|]. unfold views, cview_of, dview_of. cbn [i_table i_subjects okind]. rewrite Hd. reflexivity.
 Qed.
 
 Ltac gR_step :=
-  first [ apply gR_set_note_parent | apply gR_upd_index_subjects
+  first [ apply gR_set_note_parent
         | apply gR_alloc; cbn; solve [auto]
         | apply (g_ro _ Rext_refl); solve [ro_any]
         | apply (g_bind _ Rext_trans); [|intros ?]
@@ -386,10 +388,11 @@ Proof.
   { pose proof (g_mapMM _ Rext_refl Rext_trans (subject_of t) l (gR_subject_of t) _ _ _ H3) as R2.
     pose proof (Rext_trans _ _ _ R1 R2) as R. split; [eapply J_Rext; eauto|eapply is_tbl_Rext; eauto]. }
   pose proof (g_mapMM _ Rext_refl Rext_trans (subject_of t) l (gR_subject_of t) _ _ _ H3) as R2.
+  pose proof (detached_idx_Rext _ _ _ R2 Hdi) as Hdi2.
   apply bindM_inv in H4 as [[e [H5 _]]|[u [h3 [H5 H6]]]].
-  { pose proof (gR_upd_index_subjects _ _ _ _ _ H5) as R3.
+  { pose proof (upd_index_subjects_Rext _ _ _ _ _ Hdi2 H5) as R3.
     pose proof (Rext_trans _ _ _ (Rext_trans _ _ _ R1 R2) R3) as R. split; [eapply J_Rext; eauto|eapply is_tbl_Rext; eauto]. }
-  pose proof (gR_upd_index_subjects _ _ _ _ _ H5) as R3.
+  pose proof (upd_index_subjects_Rext _ _ _ _ _ Hdi2 H5) as R3.
   pose proof (Rext_trans _ _ _ (Rext_trans _ _ _ R1 R2) R3) as R.
   assert (HJ3 : J d h3) by (eapply J_Rext; eauto). assert (HP3 : is_tbl h3 t) by (eapply is_tbl_Rext; eauto).
   assert (Hdi3 : detached_idx h3 i) by (eapply detached_idx_Rext; [exact (Rext_trans _ _ _ R2 R3)|exact Hdi]).
